@@ -5,4 +5,5 @@ import LoraVerif.Props.TieA.C11
 tie-A equalities between the hand model's constants and the items regenerated from the current
 source (`Props/TieA/C11.lean`).  Kept separate from `Props/C11.lean` so that properties which only
 import C11's lemmas do not inherit its generated units.
+import LoraVerif.Props.TieA.PlanMask
 -/
